@@ -24,9 +24,9 @@
     other value: the underlying writer's own error. *)
 From Coq Require Import ZArith List Bool Lia.
 From Low Require Import Lib.MachInt Lib.BitSeq Model.SectionWriter Spec.SectionWriterSpec Run.C18
-  Model.MemFile Model.SectionReader Spec.SectionReaderSpec
+  Model.MemFile Model.SectionReader Spec.SectionReaderSpec Model.SectionPair Spec.SectionPairSpec
   Proofs.SectionWriterProofs Proofs.SectionWriterCalls Proofs.MemFileProofs Proofs.SectionIOProofs
-  Proofs.SectionStreamProofs Proofs.SectionCountProofs.
+  Proofs.SectionStreamProofs Proofs.SectionCountProofs Proofs.SectionPairProofs.
 Import ListNotations.
 Open Scope Z_scope.
 
@@ -384,4 +384,74 @@ Example C18_file_nonvacuous :
   map rcount (rrun (AtToReader (2^63 - 2)) [1;2;3] [] [5; 5]) = [0; 0] /\
   map rcalls (rrun (AtToReader (2^63 - 2)) [1;2;3] [] [5; 5]) = [[(2^63 - 2, 1)]; [(2^63 - 2, 1)]] /\
   map rcalls (rrun (AtToReader (2^63 - 1)) [1;2;3] [] [5]) = [[]].
+Proof. vm_compute. repeat split; reflexivity. Qed.
+
+(** * Widening: several section writers over one file ("several structures share one file").
+    [Model/SectionPair.v]: two SectionWriter states, every call a [step] on the state of the
+    writer it is addressed to ([(w, call)], w = 0: the first), one underlying writer whose
+    responses are consumed in call order.  [Spec/SectionPairSpec.v]: two independent cursors. *)
+
+(** the interleaved run refines two independent cursor/length machines *)
+Theorem C18_two_sections_refinement : forall o1 n1 o2 n2 sc wcs,
+  0 <= o1 /\ 0 <= n1 /\ o1 + n1 <= 2^63 - 1 -> 0 <= o2 /\ 0 <= n2 /\ o2 + n2 <= 2^63 - 1 ->
+  Forall (fun r => 0 <= fst r) sc -> Forall (fun wc => call_ok (snd wc)) wcs ->
+  map (fun r => (rets r, ucalls r)) (run2 (NewSectionWriter o1 n1, NewSectionWriter o2 n2) sc wcs)
+  = spec_two_sections o1 n1 o2 n2 sc (map to_wacall wcs).
+Proof. exact two_sections_refine. Qed.
+Print Assumptions C18_two_sections_refinement.
+
+(** every call stays inside the section of the writer it is addressed to *)
+Theorem C18_two_sections_containment : forall o1 n1 o2 n2 sc wcs,
+  0 <= o1 /\ 0 <= n1 /\ o1 + n1 <= 2^63 - 1 -> 0 <= o2 /\ 0 <= n2 /\ o2 + n2 <= 2^63 - 1 ->
+  Forall (fun r => 0 <= fst r) sc -> Forall (fun wc => call_ok (snd wc)) wcs ->
+  Forall2 (fun wc r =>
+      if fst wc =? 0
+      then Forall (fun u => o1 <= fst u /\ fst u + zlen (snd u) <= o1 + n1) (ucalls r)
+      else Forall (fun u => o2 <= fst u /\ fst u + zlen (snd u) <= o2 + n2) (ucalls r))
+    wcs (run2 (NewSectionWriter o1 n1, NewSectionWriter o2 n2) sc wcs).
+Proof. exact two_sections_contained. Qed.
+Print Assumptions C18_two_sections_containment.
+
+(** in the file: a byte outside both sections never changes (bytes beyond the end count as 0) *)
+Theorem C18_two_sections_file_confined : forall o1 n1 o2 n2 sc wcs init i,
+  0 <= o1 /\ 0 <= n1 /\ o1 + n1 <= 2^63 - 1 -> 0 <= o2 /\ 0 <= n2 /\ o2 + n2 <= 2^63 - 1 ->
+  Forall (fun r => 0 <= fst r) sc -> Forall (fun wc => call_ok (snd wc)) wcs ->
+  0 <= i -> (i < o1 \/ o1 + n1 <= i) -> (i < o2 \/ o2 + n2 <= i) ->
+  byte_at (file_after init (run2 (NewSectionWriter o1 n1, NewSectionWriter o2 n2) sc wcs)) i
+  = byte_at init i.
+Proof. exact two_sections_file_confined. Qed.
+Print Assumptions C18_two_sections_file_confined.
+
+(** non-interference: outside the second section, the file is exactly what the first writer's own
+    calls made of it ([outs_of_first wcs outs]: the results of the calls addressed to the first
+    writer) -- the second writer's calls, however interleaved, leave no trace there *)
+Theorem C18_two_sections_noninterference : forall o1 n1 o2 n2 sc wcs init i,
+  0 <= o1 /\ 0 <= n1 /\ o1 + n1 <= 2^63 - 1 -> 0 <= o2 /\ 0 <= n2 /\ o2 + n2 <= 2^63 - 1 ->
+  Forall (fun r => 0 <= fst r) sc -> Forall (fun wc => call_ok (snd wc)) wcs ->
+  0 <= i -> (i < o2 \/ o2 + n2 <= i) ->
+  let outs := run2 (NewSectionWriter o1 n1, NewSectionWriter o2 n2) sc wcs in
+  byte_at (file_after init outs) i = byte_at (file_after init (outs_of_first wcs outs)) i.
+Proof. exact two_sections_first_alone. Qed.
+Print Assumptions C18_two_sections_noninterference.
+
+(** the file the interleaved model leaves is the file the two cursor machines leave *)
+Theorem C18_two_sections_file_refinement : forall o1 n1 o2 n2 sc wcs init,
+  0 <= o1 /\ 0 <= n1 /\ o1 + n1 <= 2^63 - 1 -> 0 <= o2 /\ 0 <= n2 /\ o2 + n2 <= 2^63 - 1 ->
+  Forall (fun r => 0 <= fst r) sc -> Forall (fun wc => call_ok (snd wc)) wcs ->
+  file_after init (run2 (NewSectionWriter o1 n1, NewSectionWriter o2 n2) sc wcs) =
+  spec_file_after init (spec_two_sections o1 n1 o2 n2 sc (map to_wacall wcs)).
+Proof. exact two_sections_file_refines. Qed.
+Print Assumptions C18_two_sections_file_refinement.
+
+(** non-vacuity: adjacent sections (1, 2) and (3, 2) of a 6-byte file; the first writer writes 3
+    bytes (truncated to its 2), the second writes 1 and then 2 (truncated to 1) with the first
+    writer's refused Write in between; bytes 0 and 5 keep their value; dropping the second
+    writer's calls changes nothing at positions 0..2. *)
+Example C18_two_sections_nonvacuous :
+  let wcs := [(0, CWrite [1;2;3]); (1, CWrite [4]); (0, CWrite [5]); (1, CWrite [6;7])] in
+  let outs := run2 (NewSectionWriter 1 2, NewSectionWriter 3 2) [] wcs in
+  map rets outs = [[2; 1]; [1; 0]; [0; 1]; [1; 1]] /\
+  map ucalls outs = [[(1, [1;2])]; [(3, [4])]; []; [(4, [6])]] /\
+  file_after [9;9;9;9;9;9] outs = [9;1;2;4;6;9] /\
+  file_after [9;9;9;9;9;9] (outs_of_first wcs outs) = [9;1;2;9;9;9].
 Proof. vm_compute. repeat split; reflexivity. Qed.
